@@ -209,11 +209,17 @@ int v_obstack_printf (char *out, size_t cap, int use_v, const char *fmt, ...)
 {
   struct obstack ob; va_list ap; int r; size_t n; char *base;
   obstack_init (&ob);
+  if (use_v > 0)
+    {
+      /* an earlier, finished object of use_v bytes: positions the growing object anywhere relative to the end of the current chunk */
+      obstack_blank (&ob, use_v);
+      memset (obstack_base (&ob), '#', use_v);
+      (void) obstack_finish (&ob);
+    }
   obstack_grow (&ob, "pre:", 4);
   va_start (ap, fmt);
   r = gmp_obstack_vprintf (&ob, fmt, ap);
   va_end (ap);
-  (void) use_v;
   n = obstack_object_size (&ob);
   base = obstack_finish (&ob);
   if (n > cap) n = cap;
